@@ -150,7 +150,7 @@ PROPS = {
         "gen": gen.gen_C05,
     },
     "C06": {
-        "proj": {"ops": {"files", "open", "len", "read_all", "pushrun", "push"}, "roles": ["index", "data"]},
+        "proj": {"ops": {"files", "open", "len", "read_all", "pushrun", "push"}, "roles": ["index", "data", "cache"]},
         "gen": gen.gen_C06,
     },
     "C08": {
